@@ -1,8 +1,8 @@
 (* Props/C06.v — graphics commands serialise to well-formed escapes that decode to the same fields.
    Only statements; proofs are in Proofs/CommandProofs.v. *)
-From Coq Require Import NArith List Bool.
-From Tup Require Import Lib.ByteStr Lib.CommandTypes Gen.TmuxGen Gen.CommandGen Model.GraphicsCommand
-  Spec.KittyProtoSpec Proofs.CommandProofs.
+From Coq Require Import ZArith NArith List Bool.
+From Tup Require Import Lib.ByteStr Lib.CommandTypes Gen.TmuxGen Gen.CommandGen Model.GraphicsCommand Model.SendModel Model.SendCommand
+  Spec.KittyProtoSpec Proofs.CommandProofs Proofs.SendCommandProofs.
 Import ListNotations.
 Open Scope N_scope.
 
@@ -32,6 +32,59 @@ Theorem C06_contents_have_no_esc : forall c : command, payload_ok c -> has_byte 
 Proof. exact content_no_esc. Qed.
 Print Assumptions C06_contents_have_no_esc.
 
+(* ---- GraphicsTerminal.send_command, the one way the library and the CLI put commands on the command stream
+   (Model/SendCommand.v).  It may rewrite a command only when asked to — force_placeholders / force_direct_transmission,
+   the per-call argument deciding when it is given, the terminal's attribute otherwise. *)
+(* with both switches effectively off, send_command is GraphicsCommand.send of the caller's command *)
+Theorem C06_send_command_unrewritten : forall tf cp cd pid file t (m : Z) c,
+  effective cp (tf_placeholders tf) = false -> effective cd (tf_direct tf) = false ->
+  send_command tf cp cd pid file t m c =
+    match send c t m with SendError => ScRejected | SendOk ws => ScWritten ws false end.
+Proof. exact send_command_off. Qed.
+Print Assumptions C06_send_command_unrewritten.
+(* an explicit per-call False wins over the terminal's attribute (the `x or attr` reading is a different function) *)
+Theorem C06_per_call_false_wins : forall tf pid file c,
+  rewrite_command tf (Some false) (Some false) pid file c = Some (c, false).
+Proof. exact per_call_false_wins. Qed.
+Print Assumptions C06_per_call_false_wins.
+Theorem C06_or_reading_refuted : effective (Some false) true <> effective_or (Some false) true.
+Proof. exact effective_or_refuted. Qed.
+Print Assumptions C06_or_reading_refuted.
+(* the forced-placeholder rewrite of a put: virtual, a placement id (the caller's, else the drawn one), nothing else changed;
+   a virtual put is left alone *)
+Theorem C06_forced_placeholder_put : forall pid u,
+  let '(c', pr) := rewrite_placeholders pid (CPut u) in
+  if is_virtual (u_placement u) then c' = CPut u /\ pr = false
+  else exists u', c' = CPut u' /\ pr = true /\
+        u_image_id u' = u_image_id u /\ u_image_number u' = u_image_number u /\ u_quiet u' = u_quiet u /\
+        p_virtual (u_placement u') = Some true /\
+        p_placement_id (u_placement u') = Some (match p_placement_id (u_placement u) with Some x => x | None => pid end) /\
+        same_geometry (u_placement u) (u_placement u').
+Proof. exact rewrite_placeholders_put. Qed.
+Print Assumptions C06_forced_placeholder_put.
+(* the forced-direct rewrite touches only file-name transmissions with a non-empty name: medium direct, payload = contents *)
+Theorem C06_forced_direct : forall file c c', rewrite_direct file c = Some c' ->
+  c' = c \/
+  exists t content, c = CTransmit t /\ (t_medium t = Some MFile \/ t_medium t = Some MTemp) /\ t_data t <> [] /\
+                    file (t_data t) = Some content /\ c' = CTransmit (with_medium_data t (Some MDirect) content).
+Proof. exact rewrite_direct_spec. Qed.
+Print Assumptions C06_forced_direct.
+(* whatever the switches, the command that is sent serialises to an escape that decodes to exactly ITS fields *)
+Theorem C06_send_command_decodes : forall tf cp cd pid file c c' pr,
+  (forall name content, file name = Some content -> bytes_ok content) ->
+  payload_ok c -> rewrite_command tf cp cd pid file c = Some (c', pr) ->
+  exists esc kvs,
+    to_bytes default_template c' = Some esc /\
+    parse_escape esc = Some (kvs, expected_payload c') /\
+    NoDup (map fst kvs) /\
+    (forall k, sp_assoc k kvs = expected_fields c' k).
+Proof.
+  intros tf cp cd pid file c c' pr Hf Hp Hr.
+  destruct (command_roundtrip c' (rewritten_payload_ok tf cp cd pid file c c' pr Hf Hp Hr)) as (esc & kvs & H1 & _ & H3 & H4 & H5).
+  exists esc, kvs. repeat split; assumption.
+Qed.
+Print Assumptions C06_send_command_decodes.
+
 (* non-vacuity: a transmit-and-display command with a binary payload meets the hypothesis, and the oracle
    rejects a wrong escape *)
 Definition ex_cmd : command := CTransmit {|
@@ -46,3 +99,15 @@ Example C06_nonvacuous :
   (match to_bytes default_template ex_cmd with Some e => conforms ex_cmd e | None => false end) = true /\
   conforms ex_cmd [27; 95; 71; 97; 61; 116; 27; 92] = false.
 Proof. split; [repeat constructor|split; vm_compute; reflexivity]. Qed.
+
+Definition ex_put : put := {| u_image_id := Some 9; u_image_number := None; u_quiet := None;
+  u_placement := {| p_placement_id := None; p_virtual := None; p_rows := Some 2; p_cols := Some 3;
+                    p_do_not_move_cursor := None; p_src_x := None; p_src_y := None; p_src_w := None; p_src_h := None |} |}.
+Example C06_send_command_nonvacuous :
+  (* terminal forces placeholders, the call does not say: rewritten and a placeholder is to be printed *)
+  (match rewrite_command {| tf_placeholders := true; tf_direct := false |} None None 77 (fun _ => None) (CPut ex_put) with
+   | Some (CPut u', true) => N.eqb (match p_placement_id (u_placement u') with Some x => x | None => 0 end) 77
+   | _ => false end) = true /\
+  (* the call opts out: untouched *)
+  rewrite_command {| tf_placeholders := true; tf_direct := true |} (Some false) (Some false) 77 (fun _ => None) (CPut ex_put) = Some (CPut ex_put, false).
+Proof. split; reflexivity. Qed.
